@@ -624,6 +624,9 @@ func runCase(root string, n int, sc *seqCase) gal.Case {
 				o.desc = pk[0].Description
 			}
 			for _, nm := range names {
+				if _, err := fsys.Readlink(nm); err == nil {
+					continue // a symbolic link under a name that is a file in another package of this case: not a file of this install
+				}
 				if b, err := fsys.ReadFile(nm); err == nil {
 					o.files = append(o.files, [2]string{nm, string(b)})
 				}
@@ -1198,6 +1201,7 @@ func main() {
 		vs := g.variants(fmt.Sprintf("r%d", i))
 		v := &vs[r.Intn(len(vs))]
 		lazy := r.Bool()
+		http := r.Chance(1, 3) // one URL per sequence: a local path or http
 		var steps []step
 		for j, ns := 0, 2+r.Intn(3); j < ns; j++ {
 			s := step{NewProcess: j == 0 || r.Bool(), Cache: r.Intn(3) - 1, Lazy: lazy, Checksum: v.chk}
@@ -1220,6 +1224,15 @@ func main() {
 			}
 			if r.Chance(1, 6) {
 				s.DropTar = true
+			}
+			if http {
+				// through the cache transport: sometimes a whole .apk is pre-populated, sometimes the cache is offline
+				s.Http = true
+				if r.Chance(1, 3) {
+					w := &vs[r.Intn(len(vs))]
+					s.Whole = []*served{v.idx, v.serve, w.serve}[r.Intn(3)]
+				}
+				s.Offline = r.Chance(1, 3)
 			}
 			steps = append(steps, s)
 		}
